@@ -47,7 +47,10 @@ EventClauses(hb, rb, pairs, prevres, ev) ==
                \A j \in 1..Len(rb) : (j # ev.via /\ Related(pairs, ev.via, j)) => unchanged(j)>> >>
     [] ev.op \in {"jsx_tagify", "jsx_str"} ->
         << <<"C20:ConversionLeavesTheComponentAndEverythingReachableUnchanged", \A i \in 1..Len(rb) : unchanged(i)>>,
-           <<"C20:ConvertingAgainGivesTheSameResult", prevres # "" => ev.res = prevres>> >>
+           <<"C20:ConvertingAgainGivesTheSameResult", prevres # "" => ev.res = prevres>>,
+           \* a component's tagify() is a tagify(): the returned tree shares no tag, list, attribute map or metadata node
+           <<"C08:TagifyResultSharesNoTagListAttrsOrMetadataWithOriginal",
+                ev.newroot # 0 => Shared(ha, rb[1], ev.newroot) = {}>> >>
     [] OTHER ->
         << <<"C08:ReadOnlyOperationLeavesEveryReachableObjectStructurallyUnchanged",
                ev.ro => \A i \in 1..Len(rb) : unchanged(i)>>,
